@@ -215,6 +215,9 @@ def gen_v2(seed):
     """A valid Colang 2.x program.  Returns (text, flow_names, string_tokens)."""
     rng = random.Random("c13-gen-v2-%s" % seed)
     tk = _Tok()
+    # the 2.x pre-parser's docstring tracking is confused by a multi-line string value, after
+    # which `...` is no longer expanded: a program gets one of the two, never both
+    use_ellipsis = rng.random() < 0.35
     nflows = rng.randint(1, 4)
     names = []
     while len(names) < nflows:
@@ -363,13 +366,13 @@ def gen_v2(seed):
             elif k == 18:
                 res.append(pad + "send " + ev() + "(\n" + pad + "    text=\"%s\",\n" % tk.s() + pad + "  count=%d\n" % rng.randint(0, 9) + pad + ")")
             elif k == 19:
-                res.append(pad + rng.choice(["priority 0.%d" % rng.randint(1, 9), "..."]))
-            elif k == 20:
+                res.append(pad + ("..." if use_ellipsis and rng.random() < 0.7 else "priority 0.%d" % rng.randint(1, 9)))
+            elif k == 20 and not use_ellipsis:
                 res.append(pad + '%s = """%s\n%s  second line # kept\n%s"""' % (var(), tk.s(), pad, pad))
             else:
                 res.append(pad + rng.choice(names) + rng.choice(["", ' "%s"' % tk.s()]))
             if rng.random() < 0.12:
-                res[-1] = res[-1] + "  # eol %d" % rng.randint(0, 9) if "\n" not in res[-1] and '"""' not in res[-1] else res[-1]
+                res[-1] = res[-1] + "  # eol %d" % rng.randint(0, 9) if "\n" not in res[-1] and '"""' not in res[-1] and res[-1].strip() != "..." else res[-1]
         return res
 
     for nm in names:
